@@ -55,6 +55,14 @@ CHECKS = {
    text="The real circuit_breaker.rs source file is compiled (build.rs) against shuttle's atomics and a simulated millisecond wall clock; each run is one shuttle execution (seeded random or PCT depth 2-4 scheduler, every atomic access a scheduling point) of 2-3 threads x 3-8 calls with the clock advanced or stepped backwards between calls. Oracle: no panic; from the recorded call intervals, no half-open episode admits more than half_open_max_calls (+ the transition-triggering request) for every linearisation; Closed->Open only when enough failures had started.",
    note="Sequentially consistent interleavings only (no weak-memory effects); verdicts are interval-conservative, so some real violations overlapping episode edges are not counted.",
    technique=TECH + ": shuttle-controlled thread schedules (seeded random + PCT) over the real breaker source with a simulated clock, interval-based history oracle", ref="§4 C26"),
+ "C08": dict(engine="clustersim", cat="fault_enumeration",
+   text="The real BucketConfirmationManager/PartitionConfirmationState with a real Database on a tokio runtime; the simulator owns the delivery order of confirmation reports (final counts, stale lower counts, duplicates, per-version reports that leave holes; the on-disk count is written before each report as ConfirmTransaction does) and the clock that drives time-based persistence. Live oracle after every report (monotone, <= prefix with a reported quorum count, = prefix at the end); crash enumeration: the confirmation directory is snapshotted through hook points at every step of every persist_bucket_state plus every 32-byte prefix of the temp file, and a fresh manager is initialised from each snapshot against the database.",
+   note="The ConfirmationActor mailbox is bypassed (the manager is driven directly); crash states are directory snapshots taken by the harness, not kernel-level.",
+   technique=TECH + ": seeded delivery permutations of confirmation reports plus crash-point enumeration of the temp-file/rename persistence sequence through hook snapshots", ref="§4 C08"),
+ "C12": dict(engine="clustersim", cat="exploration",
+   text="The real PartitionReplicatorActor (ordered queues, buffering, eviction, catch-up, timers) with a real ConfirmationActor and Database runs on tokio's paused clock under a never-parking driver, so simulated time only moves when the scheduler advances it. The simulator is the coordinator and the network: ReplicateWrite messages in shuffled order with duplicates, conflicts, stale/far-ahead writes and withheld writes; clock advances past the catch-up and buffer timeouts; catch-up requests answered through the transport seam (error, empty, partial, complete, 20 ms simulated latency). Invariants at every quiescent point and bounded answering after the last delivery.",
+   note="One replicator actor; ClusterActor's sender/staleness checks in front of it are not run here. The first write applied at a sequence defines it.",
+   technique=TECH + ": seeded message reordering/duplication/conflict injection against the real replicator actor on a simulated clock, transport seam for catch-up", ref="§4 C12"),
  "C17": dict(engine="storesim", cat="fault_enumeration",
    text="Seeded segments written by the real seglog Writer; per target record every single-bit flip, bursts of 2..32 bits and every truncation length are applied to the stored bytes of the real file and each is checked through random read, sequential read, iteration, parse_record and Writer::open (never Ok, never a panic; predecessors intact; writer resumes after the last intact record). Exhaustive per sampled record below the caps, sampled above.",
    note="Trusts the harness's byte-level fault application and the model of what was appended; CRC collisions for multi-bit faults outside the enumerated classes are not searched.",
